@@ -106,6 +106,8 @@ type GSchema struct {
 	Extra        []string // raw chunks: extensions of built-in (prelude) types
 	Faults       []string
 	FaultyTypes  map[string]bool // types InjectSchemaFaults changed
+	dirsFirst    bool
+	dirCut       int
 	idx          map[string]*GType
 }
 
@@ -901,6 +903,17 @@ func (s *GSchema) Render(r *Rng) string {
 	return text
 }
 
+// RenderDirsFirst renders with all directive definitions at the beginning of
+// the text and returns the offset where they end (0 if there is none): cut
+// there, the first source is a prelude of directives of the server's own, the
+// way code generators hand them in as a BuiltIn source.
+func (s *GSchema) RenderDirsFirst(r *Rng) (string, int) {
+	s.dirsFirst = true
+	text, _ := s.RenderMarked(r, false)
+	s.dirsFirst = false
+	return text, s.dirCut
+}
+
 // RenderMarked is Render; with front it additionally tries to put a definition
 // that InjectSchemaFaults changed first, and it returns the offsets at which
 // the other changed definitions start - cut there, every resulting source file
@@ -965,6 +978,24 @@ func (s *GSchema) RenderMarked(r *Rng, front bool) (string, []int) {
 				chunks[0], chunks[i] = chunks[i], chunks[0]
 				faulty[0], faulty[i] = faulty[i], faulty[0]
 				break
+			}
+		}
+	}
+	s.dirCut = 0
+	if s.dirsFirst {
+		var d, rest []string
+		var df, rf []bool
+		for i, c := range chunks {
+			if strings.HasPrefix(c, "directive @") {
+				d, df = append(d, c), append(df, faulty[i])
+			} else {
+				rest, rf = append(rest, c), append(rf, faulty[i])
+			}
+		}
+		if len(d) > 0 && len(rest) > 0 {
+			chunks, faulty = append(d, rest...), append(df, rf...)
+			for _, c := range d {
+				s.dirCut += len(c) + 1
 			}
 		}
 	}
